@@ -58,6 +58,16 @@ CLAIMED.update({
   ref="DESIGN.md 4/C12"),
 })
 
+CLAIMED.update({
+ "C05": dict(
+  text="Deductive proof on the real applyTxOnState (per transaction type, all states admitted by the precondition): no successful non-exception "
+       "transaction lowers the balance or stake of any address other than its signer (quantified over all addresses); and the three validators that "
+       "gate the named exceptions accept only the inviter of the invitee, the pool of the delegator, the god address.",
+  note="Preconditions taken from validation.ValidateTx (non-negative amounts, funds). Exceptions 10/20 and contract types 15-17 are outside the clause "
+       "(contract internals: C15). Trusted: object cache (A-cache), signature recovery names the signer (senderOf), VM boundary, stats collector.",
+  ref="DESIGN.md 4/C05"),
+})
+
 PENDING = {
 }
 
